@@ -160,8 +160,8 @@ func VerifC06Classify() {
 	vrt.Assert("C06.classify.no-lease-mutation-here", len(st.calls) == 0)
 }
 
-// verif:harness props=C06 tier=quick native=yes weight=10
-// verif:bounds 1..3 lease actions with symbolic kind (ack/nack/dead), two possible nack delays and two dead reasons; store with or without batch support; each batch call and the single-lease fallback may fail
+// verif:harness props=C06,C05 tier=quick native=yes weight=10
+// verif:bounds 1..3 lease actions with symbolic kind (ack/nack/dead), every nack with an arbitrary delay in [0,1h] (equal to its predecessor's or not) and two dead reasons; store with or without batch support; each batch call and the single-lease fallback may fail
 func VerifC06ApplyActionsOnce() {
 	n := 1 + vrt.Choose("n", 3)
 	actions := make([]leaseAction, n)
@@ -172,7 +172,12 @@ func VerifC06ApplyActionsOnce() {
 			a.kind = leaseActionAck
 		case 1:
 			a.kind = leaseActionNack
-			a.delay = []time.Duration{time.Second, 2 * time.Second}[vrt.Choose("delay", 2)]
+			// an arbitrary delay (jittered delays are not whole seconds); two actions may or may not share it
+			a.delay = vrt.Duration("delay")
+			vrt.Assume(a.delay >= 0 && a.delay <= time.Hour)
+			if i > 0 && actions[i-1].kind == leaseActionNack && vrt.Bool("same-delay-as-the-previous-nack") {
+				a.delay = actions[i-1].delay
+			}
 		case 2:
 			a.kind = leaseActionMarkDead
 			a.reason = []string{"max_retries", "no_retry"}[vrt.Choose("reason", 2)]
